@@ -166,7 +166,11 @@ func childC19(args []string) int {
 		if len(labels) <= 5 {
 			perms = permutations(len(labels))
 		} else {
-			for i := 0; i < 50; i++ {
+			np := 50
+			if nk < 10000 {
+				np = 6
+			}
+			for i := 0; i < np; i++ {
 				perms = append(perms, rng.Perm(len(labels)))
 			}
 			rev := make([]int, len(labels))
@@ -221,6 +225,19 @@ func childC19(args []string) int {
 			}
 		}
 	}
+	if !run.Thorough() {
+		// every node count is visited in the quick tier too (with a smaller key sample): rounding
+		// in the per-node point count can single out one particular count
+		seen := map[int]bool{}
+		for _, n := range sizes {
+			seen[n] = true
+		}
+		for n := 1; n <= 32; n++ {
+			if !seen[n] {
+				sizes = append(sizes, n)
+			}
+		}
+	}
 	for si, n := range sizes {
 		labels := make([]string, 0, n)
 		seen := map[string]bool{}
@@ -231,7 +248,11 @@ func childC19(args []string) int {
 				labels = append(labels, l)
 			}
 		}
-		checkSet("ordinary", labels, nkeys)
+		nk := nkeys
+		if !run.Thorough() && si >= 6 {
+			nk = 3000
+		}
+		checkSet("ordinary", labels, nk)
 		if si == 2 {
 			run.Sample(map[string]interface{}{"kind": "ordinary label set", "labels": labels, "random_keys": nkeys, "ring_probes": 3*160*len(labels) + 5})
 		}
